@@ -2,7 +2,7 @@ import Holpy.Common.Sexp
 import Holpy.C08.Model
 /-
 Line protocol for the C08 model (one s-expression in, one out):
-  (infer FORBID FUEL VARS SVARS SIG SKEL) -> (ok TERM) | (error KIND)
+  (infer FORBID FUEL VARS SVARS DEFS SIG SKEL) -> (ok TERM) | (error KIND)
   (check TERM)                            -> (type TY) | none          checked_get_type
 TY   = (tv name) | (sv name) | (c name TY ...)        `(sv _t<digits>)` is an internal variable
 SKEL = (var n TY|none) | (svar n TY|none) | (const n TY|none) | (comb f a) | (abs x TY|none b) | (bound i)
@@ -66,19 +66,20 @@ def errTo : Err → String
   | .clash => "clash"
   | .notfun => "notfun"
   | .unspecified => "unspecified"
+  | .reserved => "reserved"
   | .noconst => "noconst"
   | .crash => "crash"
   | .fuel => "fuel"
 
 def handle (line : String) : String :=
   match Sexp.parse line with
-  | some (.list [.atom "infer", forbid, fuel, vars, svars, sig, skel]) =>
-    match forbid.toBool?, fuel.toNat?, bindingsOf vars, bindingsOf svars, bindingsOf sig, skelOf skel with
-    | some fb, some f, some v, some sv, some sg, some t =>
-      match typeInfer ⟨v, sv, sg⟩ f fb t with
+  | some (.list [.atom "infer", forbid, fuel, vars, svars, defs, sig, skel]) =>
+    match forbid.toBool?, fuel.toNat?, bindingsOf vars, bindingsOf svars, bindingsOf defs, bindingsOf sig, skelOf skel with
+    | some fb, some f, some v, some sv, some df, some sg, some t =>
+      match typeInfer ⟨v, sv, sg, df⟩ f fb t with
       | .ok t' => toString (Sexp.list [.atom "ok", skelTo t'])
       | .error e => toString (Sexp.list [.atom "error", .atom (errTo e)])
-    | _, _, _, _, _, _ => "bad-op"
+    | _, _, _, _, _, _, _ => "bad-op"
   | some (.list [.atom "check", skel]) =>
     match skelOf skel with
     | some t =>
